@@ -503,6 +503,61 @@ fn collision_cases() -> Vec<Case> {
         .collect()
 }
 
+/// Cross-package `use` where one name component of the *using* interface's path (namespace,
+/// package or interface) equals a component of the *used* interface's path, at every pair of
+/// levels: C++ name lookup of `a::b::c::T` written inside `x::a::y` finds the inner `a` first.
+/// The used types appear in a record, a variant, function parameters / results and resource methods.
+const LEVELS: &[&str] = &["namespace", "package", "interface"];
+
+fn cross_pkg_cases(thorough: bool) -> Vec<Case> {
+    let mut out = Vec::new();
+    for lu in 0..3usize {
+        for ld in 0..3usize {
+            if !thorough && lu == ld {
+                continue; // quick: the six different-level pairs
+            }
+            let mut using = ["uns".to_string(), "upk".to_string(), "uif".to_string()];
+            let mut used = ["dns".to_string(), "dpk".to_string(), "dif".to_string()];
+            using[lu] = "shared".into();
+            used[ld] = "shared".into();
+            let dep = format!(
+                "package {}:{};\ninterface {} {{\n  record chunk {{ offset: u64, len: u32 }}\n  enum mode {{ read, write }}\n  resource handle {{ constructor(); size: func() -> u32; }}\n}}\n",
+                used[0], used[1], used[2]
+            );
+            let dirs: &[&str] = &["import", "export", "export-both"];
+            for dir in dirs {
+                let world_items = match *dir {
+                    "import" => format!("  import {};\n", using[2]),
+                    "export" => format!("  export {};\n", using[2]),
+                    _ => format!("  export {}:{}/{};\n  export {};\n", used[0], used[1], used[2], using[2]),
+                };
+                // An *exported* resource whose methods mention types declared elsewhere does not
+                // compile for an unrelated, known reason (its user-class header is included before
+                // any type definition: known finding `collision:import-and-export-same-iface`), so
+                // resource methods over the used types are exercised on the import side only.
+                let resource = if *dir == "import" {
+                    "  resource cursor {\n    constructor(c: chunk);\n    next: func() -> option<chunk>;\n    set-mode: func(m: mode) -> mode;\n  }\n"
+                } else {
+                    ""
+                };
+                let main = format!(
+                    "package {}:{};\ninterface {} {{\n  use {}:{}/{}.{{chunk, mode, handle}};\n  record wrapper {{ c: chunk, m: mode, cs: list<chunk> }}\n  variant choice {{ a(chunk), b(mode) }}\n  describe: func(c: chunk, m: mode) -> chunk;\n  peek: func() -> option<mode>;\n  wrap: func(w: wrapper) -> result<wrapper, mode>;\n  pick: func(h: borrow<handle>) -> choice;\n{}}}\nworld w {{\n{}}}\n",
+                    using[0], using[1], using[2], used[0], used[1], used[2], resource, world_items
+                );
+                let kind = format!("crosspkg:{}-vs-{}:{dir}", LEVELS[lu], LEVELS[ld]);
+                out.push(Case {
+                    kind: kind.clone(),
+                    id: kind,
+                    input: Input::Texts(vec![("dep.wit".into(), dep.clone()), ("main.wit".into(), main)]),
+                    world: Some("w".into()),
+                    names: vec![],
+                });
+            }
+        }
+    }
+    out
+}
+
 fn corpus_cases(repo: &str) -> (Vec<Case>, Vec<Value>) {
     let root = PathBuf::from(format!("{repo}/tests/codegen"));
     let mut found: Vec<(String, PathBuf, bool)> = Vec::new(); // name, path to push, async
@@ -865,6 +920,8 @@ fn main() {
     cases.extend(corpus.iter().cloned());
     let collisions = collision_cases();
     cases.extend(collisions.iter().cloned());
+    let crosspkg = cross_pkg_cases(thorough);
+    cases.extend(crosspkg.iter().cloned());
     // keyword worlds
     let quick_batch: Vec<&str> = CPP_KEYWORDS[..10].to_vec();
     let mut kw_worlds = 0usize;
@@ -1057,10 +1114,11 @@ fn main() {
         "bounds": {
             "corpus": format!("{} of the {} entries of tests/codegen found by the discover_tests rule ({} declared exclusions removed{})", n_corpus_run, corpus.len() + excluded.len(), excluded.len(), if thorough { "" } else { "; quick takes every third remaining entry" }),
             "keywords": if thorough { format!("all {} C++20 keywords and {} generator-reserved identifiers {:?} x {} name positions x import/export: one world per (position, direction) containing every name of the list (one world per name for world / package / namespace names); failing batches are re-run one name at a time", CPP_KEYWORDS.len(), RESERVED.len(), RESERVED, POSITIONS.len()) } else { format!("the 10 keywords {:?} in one world per (position, direction), {} name positions x import/export (one keyword for world / package / namespace names), plus the multi-word keywords {:?} as record fields (import), parameters (export), interface names (import) and namespace (export); failing batches are re-run one keyword at a time", &CPP_KEYWORDS[..10], POSITIONS.len(), QUICK_MULTIWORD) },
+            "cross_package_use": format!("{} worlds: a using interface `use`s record / enum / resource types of another package while its namespace | package | interface name equals the used side's namespace | package | interface name ({}), x {}", crosspkg.len(), if thorough { "all 9 level pairs" } else { "the 6 different-level pairs" }, "import / export / export with the used interface exported too"),
             "collisions": format!("{} of {} catalogue worlds (mangling collisions{})", n_collision_run, collisions.len(), if thorough { "" } else { "; quick skips the import-only variants" }),
         },
         "positions": POSITIONS,
-        "worlds": {"corpus": n_corpus_run, "keyword": kw_worlds, "collision": n_collision_run, "minimisation_reruns": extra_cases.len()},
+        "worlds": {"cross_package_use": crosspkg.len(), "corpus": n_corpus_run, "keyword": kw_worlds, "collision": n_collision_run, "minimisation_reruns": extra_cases.len()},
         "distinct_outcomes": class_counts,
         "kinds_with_a_compiled_world": kinds_compiled.len(),
         "generated_cpp_lines_compiled": total_lines,
